@@ -226,6 +226,12 @@ Prods(h) ==
            \* a field of a record whose type is declared in a module this one need not import: sub/m2's mk() returns m2's R
            P(1, "indirect_field", <<NT("NEEDSUB"), OPEN("FIELD_ACCESS"), OPEN("EXPR_CALL"), OPEN("FIELD_ACCESS"), NT("SUBMK"), CLOSE, T("("), T(")"), CLOSE,
                                     T("."), Sym("LIBFIELD", "f", 0), CLOSE>>),
+           \* ... and afterwards, in the same block, a qualified name: reading a field whose declared type is an ALIAS of the
+           \* declaring module (m2: `pub type I = Int`, `R(f: I)`) must leave no trace in how the next qualifier is resolved
+           P(1, "field_then_qualified", <<NT("NEEDSUB"), OPEN("BLOCK"), T("{"), OPEN("STMT_EXPR"),
+                                          OPEN("FIELD_ACCESS"), OPEN("EXPR_CALL"), OPEN("FIELD_ACCESS"), NT("SUBMK"), CLOSE, T("("), T(")"), CLOSE,
+                                          T("."), Sym("LIBFIELD", "f", 0), CLOSE, CLOSE,
+                                          OPEN("STMT_EXPR"), NT("QUALIFIED"), CLOSE, T("}"), CLOSE>>),
            \* a local spelled like a module accessor in scope.  Gleam reads `x.l` as a record access when x is a value with
            \* a field l, and as a module access otherwise: a record-typed local q shadows the accessor q in `q.a` ...
            P(1, "shadow_acc_field", <<NT("NEEDTYPE"), NT("NEEDACC"), OPEN("BLOCK"), T("{"), NT("MARK"), OPEN("STMT_LET"), T("let"), NT("PATSTART"), NT("ACCBINDER"), T("="),
